@@ -50,5 +50,18 @@ Inductive pstmt :=
 | PAssign (t s : pvar)                             (* t[...] = s[...] *)
 | PIf (c : pcond) (body : list pstmt).
 
+(* ---- the wrapper layers (translate/space_ops.py -> Gen/SpaceOps.v) ---- *)
+Inductive ufunc := UMul | UDiv | UAdd | USub.
+(* programs of the LinearSpaceElement operators over space.element(), one(), space.lincomb/multiply/divide *)
+Inductive eref := ESelf | EOther | ETmp.
+Inductive sref := SConst (k : Z) | SOther | SNegOther | SInvOther.      (* k, other, -other, 1.0 / other *)
+Inductive wstmt :=
+| WNewTmp                                              (* tmp = self.space.element() *)
+| WOneTmp                                              (* tmp = one() *)
+| WLin1 (a : sref) (x o : eref)                        (* self.space.lincomb(a, x, out=o) *)
+| WLin2 (a : sref) (x : eref) (b : sref) (y o : eref)  (* self.space.lincomb(a, x, b, y, out=o) *)
+| WMul (x y o : eref)                                  (* self.space.multiply(x, y, out=o) *)
+| WDiv (x y o : eref).                                 (* self.space.divide(x, y, out=o) *)
+
 Inductive regime := Direct | Fallback | Blas.
 Inductive order := OrdC | OrdF.
